@@ -110,14 +110,15 @@ def run(rep, tier, seed):
                 cur = ev['call'] if ev['k'] == 'A' else None
             elif ev['k'] == 'I':
                 site_list.append((ev['idx'], ev['what'], ev['name'], cur))
-        hot = set()
+        hot = set(); must = set()
         by_call = {}
         for (ix, what, name, call) in site_list:
             if what == 'write' and name.endswith('.log'): by_call.setdefault(call, []).append(ix)
             if what in ('read', 'pread', 'mmap') and name.endswith('.ldb') and len(hot) < 400 and rng.chance(1, 6): hot.add(ix)
             if what in ('read', 'pread') and name.endswith('.ldb') and call is not None and call < len(ops) and ops[call].startswith('get '): hot.add(ix)
-            if name.startswith('MANIFEST') and what in ('write', 'fsync'): hot.add(ix)
+            if (name.startswith('MANIFEST') or name.endswith('.dbtmp')) and what in ('write', 'fsync', 'open', 'close'): hot.add(ix)
             if what == 'fsync' and name == '.': hot.add(ix)
+            if name.endswith('.dbtmp') and len(must) < 24: must.add(ix)      # the CURRENT switch: few sites, always tried
         for call, ixs in by_call.items():
             if len(ixs) >= 2: hot.update(ixs[:-1])
         ks = list(range(0, n_sites))
@@ -125,7 +126,7 @@ def run(rep, tier, seed):
         rest = [k for k in ks if k not in hot]
         hot = sorted(hot)
         while len(hot) > limit // 2: hot.pop(rng.below(len(hot)))
-        pick = list(hot)
+        pick = sorted(set(hot) | must)
         while len(pick) < limit and rest: pick.append(rest.pop(rng.below(len(rest))))
         ks = sorted(pick)
         hist['targeted_sites'] = hist.get('targeted_sites', 0) + len(hot)
